@@ -32,3 +32,13 @@ def crc16(data, crc=0xFFFF):
 def with_crc(data) -> bytes:
     data = bytes(data)
     return data + crc16(data).to_bytes(2, "big")
+
+
+def find16(head: bytes, tail_of_x, target: int = 0, space: int = 65536):
+    """Smallest x in range(space) with crc16(head + tail_of_x(x)) == target, or None (used to craft packets whose running
+    CRC passes through a given register value - 0x0000, 0xFFFF - at a structural boundary)."""
+    s0 = crc16(head)
+    for x in range(space):
+        if crc16(tail_of_x(x), s0) == target:
+            return x
+    return None
